@@ -282,6 +282,8 @@ fn judge(ctx: &mut Ctx, d: &Dec, input: &[u8], family: &str) {
         note_class_in_child(k);
     }
     ctx.compared();
+    // a decoder that does not return is caught by the watchdog (engine.rs)
+    let _watch = crate::engine::watch_begin(P, d.name, input);
     match (d.bytes)(input) {
         DecOutcome::Rejected => ctx.hit("rejected"),
         DecOutcome::Panicked(p) if huge.is_some() && p.msg.contains("capacity overflow") => ctx.violation(
@@ -663,10 +665,21 @@ fn nest(kind: usize, depth: usize, leaf: Vec<u8>) -> Vec<u8> {
             1 => out.push(0x9f),
             2 => out.extend_from_slice(&[0xa1, 0x00]),
             3 => out.extend_from_slice(&[0xd8, 0x79, 0x81]),
-            _ => out.extend_from_slice(&[0x82, 0x01, 0x81]),
+            4 => out.extend_from_slice(&[0x82, 0x01, 0x81]),
+            // 5: set-tagged arrays 258([x]); 6: set-tagged indefinite arrays; 7: general constructors 102([0, [x]]);
+            // 8: maps keyed by the nested item {x: 0} is not nestable linearly - instead {0: [x]}
+            5 => out.extend_from_slice(&[0xd9, 0x01, 0x02, 0x81]),
+            6 => out.extend_from_slice(&[0xd9, 0x01, 0x02, 0x9f]),
+            7 => out.extend_from_slice(&[0xd8, 0x66, 0x82, 0x00, 0x81]),
+            _ => out.extend_from_slice(&[0xa1, 0x00, 0x81]),
         }
     }
     out.extend_from_slice(&leaf);
+    if kind == 6 {
+        for _ in 0..depth {
+            out.push(0xff);
+        }
+    }
     if kind == 1 {
         for _ in 0..depth {
             out.push(0xff);
@@ -678,8 +691,8 @@ fn nest(kind: usize, depth: usize, leaf: Vec<u8>) -> Vec<u8> {
 fn sc_nesting(ctx: &mut Ctx) {
     let targets = ["NativeScript", "PlutusData", "TransactionMetadatum", "PlutusList", "NativeScripts", "MetadataList", "MetadataMap", "AuxiliaryData", "TransactionWitnessSet", "Transaction", "Value", "Certificate", "GovernanceAction", "ScriptRef", "TransactionOutput"];
     let ti = ctx.choose_free(targets.len());
-    let kind = ctx.choose_free(5);
-    let depth = *ctx.pick_free(&[1usize, 2, 16, 64, 255, 256]);
+    let kind = ctx.choose_free(9);
+    let depth = *ctx.pick_free(&[1usize, 2, 16, 24, 32, 64, 255, 256]);
     let leaf = ctx.choose_free(3);
     let leaf_bytes = match leaf {
         0 => vec![0x00],
